@@ -18,3 +18,11 @@ add("C02", "model_checking",
     "Every journal of up to 2 body transactions over the journal alphabet is run through the real `balance` command in-process for every window/interval/--last/--diff/--close combination over the date alphabet and for a product of mapping rules (level 0, suffix, several rules), account/commodity filters and remaps; the text report is parsed back into an account tree and every cell, total and Delta line is compared with an independent rational-arithmetic ledger.",
     "Trusted: reference ledger (ref/ledger.go), table reader, in-process driver (validated against the plain binary on a subset), overlay rewrites. Regexes, amounts and journal lengths beyond the alphabet are outside the bound.",
     "bounded exhaustive input x configuration enumeration against a reference model", "DESIGN.md 4 C02, A.3-A.6")
+add("C01", "model_checking",
+    "Every journal of up to N body directives over a valued alphabet (multi-commodity positions, liabilities, sales to zero, accruals, negative amounts, direct/inverse/chained prices) is run through the real `balance` command for valuation in {none, CHF, USD} and all window/interval/--last/--diff/--close combinations (text and CSV); the invariant is that every cell of every Delta row is zero. Failing valued runs must fail exactly when the reference says a price is missing.",
+    "Trusted: table readers, in-process driver (validated against the plain binary on a subset), overlay rewrites. Amounts/prices outside the alphabet and journals longer than N are outside the bound.",
+    "bounded exhaustive input x configuration enumeration with a conservation invariant", "DESIGN.md 4 C01")
+add("C03", "model_checking",
+    "Every journal of up to N directives over positions in three foreign commodities and six price declarations (sparse, inverse, chained, redeclared) on three dates is valued by the real `balance -v` for two valuation commodities and several windows/intervals; each asset/liability cell is compared with quantity x latest price <= column date (reference prices from the C12 specification), mirror income accounts with the accumulated gain, other rows with booking-day values, all within one 8-decimal truncation per arithmetic step; a missing price must give a clean failure.",
+    "Trusted: reference prices/valuation (ref/valuation.go), table reader, in-process driver (validated on a subset against the plain binary). --from is not exercised (see assumptions).",
+    "bounded exhaustive input x configuration enumeration against a reference model", "DESIGN.md 4 C03, A.7, A.8")
